@@ -231,7 +231,7 @@ namespace Impl
 /-- size of the reads of `expandApkReader` before `EnableFastRead` (tied to `Generated.expandApkReaderBuf`) -/
 def slowChunk : Nat := 1
 /-- does today's `ExpandApk` refuse a source that ends before the data section? (tied to `Generated.expandApkRequiresData`) -/
-def strict : Bool := false
+def strict : Bool := true
 def expandStream (G : Gz) (H : Hashes) := ExpandSplit.expandStream G H slowChunk strict
 end Impl
 
